@@ -232,7 +232,6 @@ pub fn run(tier: Tier) -> i32 {
     //            steady-state window (quick: every 4th point, acquisition window only);
     //   bound 2: every pair, grid points in a scattered order, until the budget is used up.
     let budget_s: f64 = std::env::var("VERIF_C02_BUDGET_S").ok().and_then(|s| s.parse().ok()).unwrap_or(tier.pick(40.0, 1200.0));
-    let started = std::time::Instant::now();
     let windows_of = |g: &Grid| -> Vec<(u64, u64)> { if tier == Tier::Thorough { vec![(6, 12), (t_acq(g) / SEC + 15, t_acq(g) / SEC + 19)] } else { vec![(6, 12)] } };
     type R = (u64, Vec<Violation>, Option<u64>, i128, usize);
     let viol = |g: &Grid, w: (u64, u64), dev: &[(usize, usize)], v: Vec<(String, String)>, viols: &mut Vec<Violation>| {
@@ -273,26 +272,34 @@ pub fn run(tier: Tier) -> i32 {
         rep.cover("very_long_executions", json!({"count": long.len(), "horizon_s": VERY_LONG_HORIZON_S}));
     }
     // bounds 1 and 2
-    fn explore(g: &Grid, w: (u64, u64), h: u64, prefix: &mut Vec<(usize, usize)>, pts: &[usize], k: usize, execs: &mut u64, out: &mut Vec<(Vec<(usize, usize)>, Vec<(String, String)>)>) {
+    /// returns false when the wall-clock budget ran out before the enumeration was complete
+    fn explore(g: &Grid, w: (u64, u64), h: u64, prefix: &mut Vec<(usize, usize)>, pts: &[usize], k: usize, execs: &mut u64, out: &mut Vec<(Vec<(usize, usize)>, Vec<(String, String)>)>, over: &dyn Fn() -> bool) -> bool {
         if prefix.len() >= k {
-            return;
+            return true;
         }
         let start = prefix.last().map(|x| x.0 + 1).unwrap_or(0);
         for i in start..pts.len() {
             for alt in 1..pts[i] {
+                if over() {
+                    return false;
+                }
                 prefix.push((i, alt));
                 let o = run_one(g, prefix, w, h);
                 *execs += 1;
                 if !o.violations.is_empty() {
                     out.push((prefix.clone(), o.violations));
                 }
-                if prefix.len() < k {
-                    explore(g, w, h, prefix, &o.choice_points, k, execs, out);
-                }
+                let done = prefix.len() >= k || explore(g, w, h, prefix, &o.choice_points, k, execs, out, over);
                 prefix.pop();
+                if !done {
+                    return false;
+                }
             }
         }
+        true
     }
+    // the budget is for bounds 1 and 2 (bound 0 above is always complete)
+    let started = std::time::Instant::now();
     // scattered order: consecutive grid points differ in one coordinate only
     let n = gs.len();
     let order: Vec<usize> = (0..n).map(|i| (i * 7919) % n).collect();
@@ -312,27 +319,32 @@ pub fn run(tier: Tier) -> i32 {
                 let mut execs = 0;
                 let mut viols = vec![];
                 let mut points = 0;
+                let mut complete = true;
+                // quick has no budget inside a grid point (the same set on every run)
+                let over = || tier == Tier::Thorough && started.elapsed().as_secs_f64() > budget;
                 for w in windows_of(g) {
                     let base = run_one(g, &[], w, h);
                     execs += 1;
                     points = points.max(base.choice_points.len());
                     let mut found = vec![];
-                    explore(g, w, h, &mut vec![], &base.choice_points, k, &mut execs, &mut found);
+                    complete &= explore(g, w, h, &mut vec![], &base.choice_points, k, &mut execs, &mut found, &over);
                     for (dev, v) in found {
                         viol(g, w, &dev, v, &mut viols);
                     }
                 }
-                Some((execs, viols, None, 0, points))
+                // an unfinished point still contributes its executions and findings, but is not
+                // counted as covered at this bound
+                Some((execs, viols, None, 0, if complete { points } else { usize::MAX }))
             })
             .collect()
     };
     let r1 = pass(1, tier.pick(4, 1), budget_s * 0.7);
-    let at1 = r1.iter().filter(|r| r.is_some()).count();
+    let at1 = r1.iter().filter(|r| matches!(r, Some(x) if x.4 != usize::MAX)).count();
     results.extend(r1.into_iter().flatten());
     let mut at2 = 0;
     if tier == Tier::Thorough {
         let r2 = pass(2, 1, budget_s);
-        at2 = r2.iter().filter(|r| r.is_some()).count();
+        at2 = r2.iter().filter(|r| matches!(r, Some(x) if x.4 != usize::MAX)).count();
         results.extend(r2.into_iter().flatten());
     }
     let wanted1 = (n + tier.pick(4, 1) - 1) / tier.pick(4, 1);
@@ -351,7 +363,9 @@ pub fn run(tier: Tier) -> i32 {
         execs += e;
         slowest = slowest.max(s.unwrap_or(0));
         worst = worst.max(w);
-        max_points = max_points.max(p);
+        if p != usize::MAX {
+            max_points = max_points.max(p);
+        }
         for x in v {
             sigs.entry(x.signature.clone()).or_insert(x);
         }
